@@ -104,5 +104,134 @@ def applyBraceEscape : List Char → List Char
   | c :: rest => c :: applyBraceEscape rest
   | [] => []
 
+/-! ### number literals (`parser.rs`, `Rule::NUMBER_ANY`; grammar `xray.pest:121-128`) -/
+
+def isDigit (c : Char) : Bool := '0' ≤ c && c ≤ '9'
+def isNumDigit (c : Char) : Bool := isDigit c || c = '_'
+def isHexDigitU (c : Char) : Bool := isHex c || c = '_'
+def isBin (c : Char) : Bool := c = '0' || c = '1'
+def isBinDigitU (c : Char) : Bool := isBin c || c = '_'
+
+/-- exponent part after the `e`: `"-"? ~ int` -/
+def isExpTail : List Char → Bool
+  | '-' :: d :: m => isDigit d && m.all isNumDigit
+  | d :: m => isDigit d && m.all isNumDigit
+  | [] => false
+
+/-- the text after the integer part of `num`: optional `"." ~ num_digit+`, optional `^"e" ~ "-"? ~ int`, end -/
+def isNumTail (r1 : List Char) : Bool :=
+  let r2 := match r1 with
+    | '.' :: f :: more => if isNumDigit f then more.dropWhile isNumDigit else r1
+    | _ => r1
+  match r2 with
+  | [] => true
+  | e :: t => (e = 'e' || e = 'E') && isExpTail t
+
+/-- `num = { int ~ ("." ~ num_digit+)? ~ (^"e" ~ "-"? ~ int)? }` as a recogniser of the whole token -/
+def isNumTok : List Char → Bool
+  | d :: rest => isDigit d && isNumTail (rest.dropWhile isNumDigit)
+  | [] => false
+
+/-- `hexnum = { "0x" ~ "_"* ~ ASCII_HEX_DIGIT ~ hex_digit* }` -/
+def isHexTok : List Char → Bool
+  | '0' :: 'x' :: rest =>
+    (match rest.dropWhile (· = '_') with
+     | h :: more => isHex h && more.all isHexDigitU
+     | [] => false)
+  | _ => false
+
+/-- `binnum = { "0b" ~ "_"* ~ ("0"|"1") ~ bin_digit* }` -/
+def isBinTok : List Char → Bool
+  | '0' :: 'b' :: rest =>
+    (match rest.dropWhile (· = '_') with
+     | h :: more => isBin h && more.all isBinDigitU
+     | [] => false)
+  | _ => false
+
+/-- the token texts the rule `NUMBER_ANY = @{hexnum | binnum | num}` can produce -/
+def isNumberAny (s : List Char) : Bool := isHexTok s || isBinTok s || isNumTok s
+
+/-- value of a digit string in a radix (digits already checked) -/
+def radixVal (radix : Nat) (cs : List Char) : Nat := cs.foldl (fun acc c => acc * radix + hexVal c) 0
+
+/-- `LazyBigint::from_str_radix(s, radix).ok()` on sign-free text: every character a digit of the radix,
+at least one -/
+def parseRadix (radix : Nat) (cs : List Char) : Option Nat :=
+  if !cs.isEmpty && cs.all (fun c => isHex c && hexVal c < radix) then some (radixVal radix cs) else none
+
+/-- Rust's `f64::from_str` on the texts that can reach it here (digits, `.`, `e`/`E`, `-`):
+`digit+ ("." digit*)? ([eE] "-"? digit+)?` -/
+def isFloatText (s : List Char) : Bool :=
+  match s with
+  | d :: _ =>
+    isDigit d &&
+    (let r1 := s.dropWhile isDigit
+     let r2 := match r1 with
+       | '.' :: more => more.dropWhile isDigit
+       | _ => r1
+     match r2 with
+     | [] => true
+     | e :: t => (e = 'e' || e = 'E') &&
+       (match t with
+        | '-' :: d :: m => isDigit d && m.all isDigit
+        | d :: m => isDigit d && m.all isDigit
+        | [] => false))
+  | [] => false
+
+inductive NumLit where
+  | int (v : Nat)
+  | float          -- the value is `f64::from_str` of the text (not modelled)
+  deriving Repr, DecidableEq
+
+/-- the handler (:668-692): underscores removed; decimal, then `0x…` hex, then `0b…` binary integer;
+else a float; else `panic!("… is not a number")` -/
+def numberLiteral (input : List Char) : Outcome NumLit :=
+  let t := input.filter (· ≠ '_')
+  match parseRadix 10 t with
+  | some v => .ok (.int v)
+  | none =>
+    match (match t with | '0' :: 'x' :: r => parseRadix 16 r | _ => none) with
+    | some v => .ok (.int v)
+    | none =>
+      match (match t with | '0' :: 'b' :: r => parseRadix 2 r | _ => none) with
+      | some v => .ok (.int v)
+      | none => if isFloatText t then .ok .float else .panic "is not a number"
+
+/-! ### the identifier interner (`special_prefix_interner.rs`): `^item(0|[1-9][0-9]*)$`, index ≤ 65536 -/
+
+inductive Sym where
+  | item (idx : Nat)
+  | regular (s : List Char)     -- the inner interner is injective on spellings: modelled as the spelling itself
+  deriving Repr, DecidableEq
+
+def maxItemIndex : Nat := 65536
+
+def decVal (cs : List Char) : Nat := cs.foldl (fun acc c => acc * 10 + (c.toNat - '0'.toNat)) 0
+
+/-- `item_index`: the canonical spellings `item0`, `item1`, … up to the bound -/
+def itemIndex (s : List Char) : Option Nat :=
+  match s with
+  | 'i' :: 't' :: 'e' :: 'm' :: ds =>
+    if ds = ['0'] then some 0
+    else match ds with
+      | d :: rest =>
+        if '1' ≤ d && d ≤ '9' && rest.all isDigit then
+          -- `parse::<usize>()` fails beyond 2^64-1, and indices above the bound are rejected
+          let v := decVal ds
+          if v ≤ maxItemIndex then some v else none
+        else none
+      | [] => none
+  | _ => none
+
+def intern (s : List Char) : Sym :=
+  match itemIndex s with
+  | some i => .item i
+  | none => .regular s
+
+/-- `resolve`: the text stored for a symbol (`format!("item{idx}")` for items) -/
+def resolve : Sym → List Char
+  | .item i => 'i' :: 't' :: 'e' :: 'm' :: (toString i).toList
+  | .regular s => s
+
 end Lex
 end XrayModel
